@@ -145,7 +145,7 @@ theorem runH_sub {H : Hyper} (hs : HyperSafety H) {ls : List Label} : ∀ {s s' 
 theorem reachableH_sub {H : Hyper} (hs : HyperSafety H) {g b a : Bool} {s : State}
     (h : ReachableH H g b a s) : Reachable g b a s := by
   induction h with
-  | init => exact .init
+  | init t => exact .init t
   | step l _ hst ih => exact .step l ih (stepH_sub hs hst)
 
 /-- LIVENESS transfer: a draining step of the model is enabled over a live hyper too. -/
@@ -230,6 +230,11 @@ theorem step_freeRun_internal {s s' : State} {l : Label} (hi : l.internal = true
   case callStart | produce | deliver =>
     simp only [step] at h
     obtain ⟨_, _, _, _, _, rfl⟩ := updCall_some h; rfl
+  case expire =>
+    simp only [step] at h
+    split at h
+    · obtain ⟨_, _, _, _, _, rfl⟩ := updCall_some h; rfl
+    · cases h
 
 /-- the server's own steps keep a closeable state closeable -/
 theorem closeable_step {s s' : State} {l : Label} (hd : Closeable s) (hi : l.internal = true)
@@ -307,6 +312,11 @@ theorem closeable_step {s s' : State} {l : Label} (hd : Closeable s) (hi : l.int
       omega
     · exact ⟨rfl, rfl, id⟩
   case deliver c j => exact viaCall h (fun _ _ _ => ⟨rfl, rfl, id⟩)
+  case expire c j =>
+    simp only [step] at h
+    split at h
+    · exact viaCall h (fun _ _ _ => ⟨rfl, rfl, fun _ => Nat.zero_le _⟩)
+    · cases h
 
 /-- What holds at the start of a drain keeps holding along any run of the server's own steps. -/
 structure Draining (s : State) : Prop where
